@@ -125,13 +125,15 @@ func genC08Handover(t *rapid.T, opts SetGenOpts) *Scenario {
 
 func TestC08(t *testing.T) {
 	st := NewStats("C08", "engine", "scenario = one ObjectDeployment over 2-4 overlapping templates with probe-driven availability changes, all revisionHistoryLimit values, pause toggles on revisions, arbitrary interleaving of the deployment controller with the revisions' reconciles; non-trivial = an archival or prune happened")
-	opts := SetGenOpts{AllowClass: true, PoolSize: 4, MaxObjs: 3, MaxPhases: 2}
+	opts := SetGenOpts{AllowClass: true, PoolSize: 4, MaxObjs: 3, MaxPhases: 2, CPs: []string{"", "", "", "Prevent", "IfNoController", "None"}}
 	mk := func(sc *Scenario) (*Runner, *C08Monitor) {
 		m := &C08Monitor{}
-		return NewRunner(sc, m), m
+		// "adopted in place": the handover rules of C02 (only forward, one controller) are watched as well
+		return NewRunner(sc, m, &C02Monitor{}), m
 	}
 	CheckOrReplay(t, st, func(data []byte) (any, error) {
-		return ReplayScenario(data, func(sc *Scenario) *Runner { r, _ := mk(sc); return r })
+		v, err := ReplayScenario(data, func(sc *Scenario) *Runner { r, _ := mk(sc); return r })
+		return v, remapProp(err, "C08")
 	}, func(rt *rapid.T) {
 		var sc *Scenario
 		family := "family-general"
@@ -142,7 +144,7 @@ func TestC08(t *testing.T) {
 		}
 		r, m := mk(sc)
 		r.Labels[family] = true
-		err := r.Run()
+		err := remapProp(r.Run(), "C08")
 		st.Count("passes", int64(len(r.W.Passes)))
 		st.Count("archivals", int64(m.Archivals))
 		st.Count("prunes", int64(m.Prunes))
